@@ -126,3 +126,17 @@ for mode, inv in (("vars", ["R1_Vars", "EmitVars"]), ("ways", ["R1_Ways", "EmitW
     for part, (lo, hi) in enumerate([(1, 16), (17, 32), (33, 44), (45, 52), (53, 60), (61, 99)]):
         cfg("MC_%s_%d.cfg" % (mode, part), {"MODE": '= "%s"' % mode, "TLO": "= %d" % lo, "THI": "= %d" % hi}, inv)
 cfg("MC_pairs.cfg", {"MODE": '= "pairs"', "TLO": "= 1", "THI": "= 1"}, ["R1_Pairs", "EmitPairs"])
+
+# ---- C06 / C07: validation ---------------------------------------------------------------------------
+VALID_INV = ["R1_SeedsValid", "R1_RewritesInvalid", "EmitV"]
+def valid_consts(**kw):
+    d = {"Types": "<- TypesExec", "Roots": "<- RootsExec", "MaxSel": "= 3", "MaxDepth": "= 3", "MaxFrags": "= 1", "MaxOps": "= 1",
+         "OpTypes": '= {"query"}', "FieldAlpha": "<- AlphaV1", "Aliases": '= {""}', "Conds": '= {"", "T"}', "DirOpts": "<- NoDirs",
+         "ArgOpts": "<- ArgOptsV", "VarTypes": "<- VarTypesV", "VarVals": "<- VarValsV"}
+    d.update(kw)
+    return d
+cfg("MC_valid_1.cfg", valid_consts(), VALID_INV, spec="SpecV")
+cfg("MC_valid_2.cfg", valid_consts(FieldAlpha="<- AlphaV2", Conds='= {"", "T", "P", "A"}', MaxFrags="= 2"), VALID_INV, spec="SpecV")
+cfg("MC_valid_4.cfg", valid_consts(FieldAlpha="<- AlphaV2", Conds='= {"", "A"}', MaxFrags="= 0", DirOpts="<- DirsV"), VALID_INV, spec="SpecV")
+cfg("MC_valid_2_big.cfg", valid_consts(FieldAlpha="<- AlphaV2", Conds='= {"", "T", "P", "A"}', MaxFrags="= 2", DirOpts="<- DirsV"), VALID_INV, spec="SpecV")
+cfg("MC_valid_3.cfg", valid_consts(FieldAlpha="<- AlphaV3", OpTypes='= {"subscription", "mutation", "query"}', MaxOps="= 2", MaxSel="= 3", Conds='= {"", "Subscription"}', MaxFrags="= 1"), VALID_INV, spec="SpecV")
